@@ -1,12 +1,57 @@
 """C01 — serialized values inhabit the generated TypeScript type."""
-import json, os
-import vlib
+import json, os, random
+import vlib, e2e, gen_corpus
+from gen_corpus import P, N, OPT, VEC
 from props import corpus
+
+
+def tagged_newtype_programs(ctx):
+    """newtype variants of internally / adjacently tagged enums over struct- and union-typed fields, by name and with `#[ts(inline)]`
+    (the shared corpus keeps `inline` away from these positions because of a C03 finding about their imports)"""
+    rng = random.Random(ctx.seed * 13 + 2)
+    progs = []
+    for i in range(2 if ctx.quick else 12):
+        L = {"kind": "struct", "name": f"X{i}L", "shape": "named", "attrs": {}, "generics": [], "fields": [{"name": "x", "ty": P("u8"), "attrs": {}}, {"name": "o", "ty": OPT(P("String")), "attrs": {}}]}
+        IE = {"kind": "enum", "name": f"X{i}IE", "attrs": {"tag": "kind"}, "generics": [],
+              "variants": [{"name": "Circle", "shape": "named", "fields": [{"name": "r", "ty": P("u32"), "attrs": {}}], "attrs": {}},
+                           {"name": "Square", "shape": "named", "fields": [{"name": "side", "ty": P("u32"), "attrs": {}}], "attrs": {}},
+                           {"name": "Dot", "shape": "unit", "fields": [], "attrs": {}}]}
+        XE = {"kind": "enum", "name": f"X{i}XE", "attrs": {}, "generics": [],
+              "variants": [{"name": "A", "shape": "named", "fields": [{"name": "a", "ty": P("bool"), "attrs": {}}], "attrs": {}},
+                           {"name": "B", "shape": "named", "fields": [{"name": "b", "ty": N(L["name"]), "attrs": {}}], "attrs": {}}]}
+        items = [L, IE, XE]
+        outs = []
+        for repr_, attrs in (("int", {"tag": "type"}), ("adj", {"tag": "t", "content": "c"})):
+            for inl in (False, True):
+                vs = []
+                for k, inner in enumerate([N(L["name"]), N(IE["name"]), N(XE["name"])] + ([VEC(N(IE["name"])), OPT(N(L["name"]))] if repr_ == "adj" else [])):
+                    vs.append({"name": f"V{k}", "shape": "tuple", "fields": [{"name": None, "ty": inner, "attrs": {"inline": True} if inl else {}}], "attrs": {}})
+                vs.append({"name": "Clear", "shape": "unit", "fields": [], "attrs": {}})
+                outs.append({"kind": "enum", "name": f"X{i}O{repr_}{'I' if inl else 'N'}", "attrs": dict(attrs), "generics": [], "variants": vs})
+        items += outs
+        imap = {x["name"]: x for x in items}
+        g = gen_corpus.Gen(rng)
+        probes = [{"ty": N(o["name"]), "values": g.all_variant_values(N(o["name"]), imap)} for o in outs]
+        inner_probes = [{"ty": N(x["name"]), "values": []} for x in (L, IE, XE)]
+        # every inner variant under every outer variant
+        for pr, o in zip(probes, outs):
+            extra = []
+            for vi_, v in enumerate(o["variants"]):
+                if v["shape"] == "tuple" and v["fields"][0]["ty"]["k"] == "named" and imap[v["fields"][0]["ty"]["id"]]["kind"] == "enum":
+                    for iv in g.all_variant_values(v["fields"][0]["ty"], imap):
+                        extra.append({"k": "variant", "i": vi_, "vs": [iv]})
+            pr["values"] = pr["values"] + extra
+        progs.append({"items": items, "probes": probes + inner_probes})
+    return progs
 
 
 def uses_raw(prog):
     s = json.dumps(prog["items"])
     return '"type": "' in s
+
+
+def xdecls(xprogs, xreal, xi):
+    return [r["decl"]["ok"] for r in xreal[xi] if "ok" in r.get("decl", {})]
 
 
 def run(ctx):
@@ -35,13 +80,36 @@ def run(ctx):
                 if "ok" in r.get("inline", {}):
                     qs.append({"op": "oracle_member", "decls": decls, "ty": r["inline"]["ok"], "json": jtxt})
                     meta.append((pi, qi, vi, "inline"))
+    n_corpus_q = len(qs)
+    xprogs = tagged_newtype_programs(ctx)
+    xreal, _ = e2e.build_and_run(ctx, "c01x", xprogs)
+    if xreal is not None:
+        xmodel = e2e.run_model_programs(xprogs, c.chars, os.path.join(vlib.SCRATCH, "e2e-c01x"))
+        for prog, R, M in zip(xprogs, xreal, xmodel or []):
+            for pr, r, m in zip(prog["probes"], R, M):
+                for k in ("name", "inline", "decl", "values"):
+                    a, b = r.get(k), m.get(k)
+                    if k == "values":
+                        a, b = [e2e.jnorm(x) for x in a or []], [e2e.jnorm(x) for x in b or []]
+                    if a != b:
+                        ctx.broken.append(f"compiled correspondence (tagged newtype variants): {pr['ty']['id']} {k}: impl={json.dumps(r.get(k))[:300]} model={json.dumps(m.get(k))[:300]}")
+                        break
+        for xi, (prog, R) in enumerate(zip(xprogs, xreal)):
+            decls = [r["decl"]["ok"] for r in R if "ok" in r.get("decl", {})]
+            # the inner items are not probed: take their declarations from the model side of the same run
+            for qi, (pr, r) in enumerate(zip(prog["probes"], R)):
+                for vi, jtxt in enumerate(r.get("values", [])):
+                    if jtxt is None or "ok" not in r.get("name", {}):
+                        continue
+                    qs.append({"op": "oracle_member", "decls": xdecls(xprogs, xreal, xi), "ty": r["name"]["ok"], "json": jtxt})
+                    meta.append((("x", xi), qi, vi, "name"))
     res = vlib.run_model(qs) if qs else []
     fails = unparsed = 0
     known_hit = {}
     for q, (pi, qi, vi, which), v in zip(qs, meta, res or []):
         if v.get("ok") is True and v.get("decls_parsed") == v.get("decls_given"):
             continue
-        prog = c.programs[pi]
+        prog = xprogs[pi[1]] if isinstance(pi, tuple) else c.programs[pi]
         case = {"items": prog["items"], "probe": prog["probes"][qi]["ty"], "value": prog["probes"][qi]["values"][vi], "via": which + "()"}
         if "ok" not in v or v.get("decls_parsed") != v.get("decls_given"):
             unparsed += 1
@@ -52,7 +120,10 @@ def run(ctx):
         if fails <= 5:
             ctx.violation(f"a serialized value does not inhabit the TypeScript type ts-rs generates ({which}())", case,
                           {"ts_type": q["ty"], "declarations": q["decls"], "serde_json": q["json"]})
-    ctx.stream("compiled corpus (derive(TS) + serde): values vs declared types", len(qs), len({(m[0], m[1]) for m in meta}),
+    ctx.stream("tagged newtype variants, by name and inlined", len(qs) - n_corpus_q, len(xprogs),
+               "internally and adjacently tagged enums whose newtype variants hold a struct, an internally tagged enum, an externally tagged enum with struct variants (adjacent: also Vec / Option of them), "
+               "with and without #[ts(inline)]; every inner variant under every outer variant; real serde_json output judged against the real declarations; model = implementation", [], {})
+    ctx.stream("compiled corpus (derive(TS) + serde): values vs declared types", n_corpus_q, len({(m[0], m[1]) for m in meta if not isinstance(m[0], tuple)}),
                f"{len(c.programs)} generated programs ({c.n_probes} probes): structs (named/tuple/newtype/unit/empty) and enums (external/internal/adjacent/untagged, "
                "per-variant untagged/skip) with rename, rename_all, rename_all_fields, tag, skip, flatten, inline, optional (+nullable), as, docs, generics with defaults, "
                "library types to depth 3; every non-skipped variant x2 values; real serde_json output judged against the parsed real decl()/name()/inline(); "
